@@ -120,7 +120,7 @@ func c14Pairs(c *Ctx) []pairSpec {
 		{name: "NodeInfo.addTaskResources <-> removeTaskResources", f: p.Func(pkgNodeInfo, "NodeInfo", "addTaskResources"), g: p.Func(pkgNodeInfo, "NodeInfo", "removeTaskResources"),
 			target: func(t *Term) bool { return rootParam(t) == 0 && t.Op == "field" }, lab: statusArm, floor: 10},
 		{name: "NodeInfo.addSharedTaskResourcesPerPodGroup <-> removeSharedTaskResourcesPerPodGroup", f: p.Func(pkgNodeInfo, "NodeInfo", "addSharedTaskResourcesPerPodGroup"), g: p.Func(pkgNodeInfo, "NodeInfo", "removeSharedTaskResourcesPerPodGroup"),
-			target: func(t *Term) bool { return rootParam(t) == 0 }, lab: statusArm, inline: 1, floor: 17},
+			target: func(t *Term) bool { return rootParam(t) == 0 }, lab: statusArm, inline: 2, floor: 17},
 		{name: "PodGroupInfo.AddTaskInfo <-> resetTaskState", f: p.Func(pkgPGInfo, "PodGroupInfo", "AddTaskInfo"), g: p.Func(pkgPGInfo, "PodGroupInfo", "resetTaskState"),
 			target: recv0("Allocated", "AllocatedVector", "PodStatusIndex", "activeAllocatedCount"), lab: statusArm, inline: 1, floor: 4,
 			ignore: func(e Effect) string {
